@@ -22,12 +22,23 @@
      sl + i + 1 with that indentation stack and is_first_token=False; errors of the rest are the errors of the whole.
      Proved for ANY collection and oracles (TokResume.tok_resume_points) from the same simulation with k = 0.
 
+   The new parser DiffParser runs over the tokens of the rest starts with an empty root frame, and its children are
+   spliced in after the nodes that were kept.  That is right only if what the root frame already holds does not influence
+   how the following tokens are parsed:
+
+     C04_engine_restart: for every table, both modes and every token list that does not begin with a DEDENT, feeding
+     the tokens to an engine whose root frame already holds the nodes ns ends in the same stack as feeding them to an
+     engine with an empty root frame, with ns in front of the root frame's nodes (EngineRestart.shiftb) - every transition,
+     push, pop and every error recovery step is the same - and, for a root rule without special conversion (file_input),
+     the finished tree is the same tree with ns in front of the root's children.  (A DEDENT arriving at a root frame that
+     is still empty is the one place where the engine reads the last node of the frame it is in.)
+
    What is NOT proved: that DiffParser picks copy boundaries that are clean in this sense and at which the engine is
    at a statement boundary, and the difflib + _NodesTree bookkeeping; those are decided by validation of edit
    histories against the pipeline model (harness/props/C04.py). *)
-From Coq Require Import List NArith Bool.
+From Coq Require Import List NArith ZArith Bool.
 Import ListNotations.
-Require Import Regex Tok TokShift TokResume Tables Model.
+Require Import Regex Tok TokShift TokResume Engine EngineRestart Tables Model.
 Open Scope N_scope.
 
 Theorem C04_tok_shift : forall v k lines inds sl sc first,
@@ -71,3 +82,13 @@ Example C04_resume_example :
   let lines := [[105;102;32;97;58;10]; [32;32;120;32;61;32;39;39;39;97;10]; [98;39;39;39;10]; [32;32;121;32;61;32;102;34;123;120;125;34;10]] in
   run_resume_points 312 lines [0] 1 0 true = [Some [0]; None; Some [0; 2]; Some [0; 2]].
 Proof. vm_compute. reflexivity. Qed.
+
+Theorem C04_engine_restart : forall G TR ns recover q toks t,
+  match toks with u :: _ => ty u <> DEDENT | [] => True end ->
+  forall p, feed G TR recover (mkP [mkFr q []] [] 0%Z) toks = POk p ->
+  plain_rule G (rule_of G (f_dfa (last (stack p) (mkFr 0 [])))) = true ->
+  finish G (S (length (stack p))) (stack p) = POk t ->
+  exists p', feed G TR recover (mkP [mkFr q ns] [] 0%Z) toks = POk p' /\ stack p' = shiftb ns (stack p) /\
+             finish G (S (length (stack p'))) (stack p') = POk (prepend_root ns t).
+Proof. exact engine_restart. Qed.
+Print Assumptions C04_engine_restart.
